@@ -112,9 +112,9 @@ compute_cache_key = Contract(
         "key": S.implies(S.not_(S.is_none(r)), lambda: S.and_(
             S.eq(S.some(r).out, a.output_name) if S.symbolic else S.some(r)[0] == a.output_name,
             S.len(_items(S, r)) == S.len(a.root_args),
-            S.forall(0, S.len(a.root_args), lambda i: S.and_(
+            lambda: S.forall(0, S.len(a.root_args), lambda i: S.and_(
                 S.eq(_item(S, r, i, 0), a.root_args[i]),
-                S.eq(_item(S, r, i, 1), _h(S, a.kwargs[a.root_args[i]])))))),
+                lambda: S.eq(_item(S, r, i, 1), _h(S, a.kwargs[a.root_args[i]])))))),
     },
     loops={0: LoopSpec(lambda S, a, v, k: {
         "all-present-so-far": S.forall(0, k, lambda i: S.has(a.kwargs, a.root_args[i])),
